@@ -21,6 +21,10 @@ from cryptography.hazmat.primitives.asymmetric import ec
 from cryptography.hazmat.primitives.ciphers import algorithms, modes
 
 
+# Prime of the field over which P-256 is defined
+_SECP256R1_P = 0xFFFFFFFF00000001000000000000000000000000FFFFFFFFFFFFFFFFFFFFFFFF
+
+
 def e(key: bytes, data: bytes) -> bytes:
     '''
     AES-128 ECB, expecting byte-swapped inputs and producing a byte-swapped output.
@@ -65,6 +69,10 @@ class EccKey:
     def dh(self, public_key_x: bytes, public_key_y: bytes) -> bytes:
         x = int.from_bytes(public_key_x, byteorder='big', signed=False)
         y = int.from_bytes(public_key_y, byteorder='big', signed=False)
+        if x >= _SECP256R1_P or y >= _SECP256R1_P:
+            # The library reduces coordinates modulo p before checking the curve
+            # equation, so it would accept a non-canonical encoding.
+            raise ValueError('Invalid EC key. Coordinate is out of range.')
         return self.private_key.exchange(
             ec.ECDH(),
             ec.EllipticCurvePublicNumbers(x, y, ec.SECP256R1()).public_key(),
